@@ -368,7 +368,7 @@ func csnext(c *cipherState, nonce0 uint64, key0, salt0 [32]byte) bool {
 //@   ensures csinv(c) && c.nonce == 0 && c.secretKey == key && c.salt == salt && nseals() == old(nseals()) && nopens() == old(nopens())
 
 //@ func (c *cipherState) rotateKey()
-//@   props C08 C07
+//@   props C08 C02 C07
 //@   modifies cryptolog()
 //@   requires c != nil
 //@   modifies c.nonce, c.secretKey, c.salt, c.cipher
